@@ -259,9 +259,17 @@ def r3(ctx):
     ctx.ob(run.qual, "input-phase-is-read", ok, run.loc(), "the input VCF is read with phases=True" if ok else "the input VCF is read without phases")
 
 
+def r4(ctx):
+    """The tags haplotagphase consumes are assigned per best agreement, within the linked-read cutoff (C10.R4)."""
+    from rules import c10
+
+    c10.r4(ctx)
+
+
 RULES = [
     ("C17.R1", "offset ledger PS/HP from VCF through tags back to VCF", r1),
     ("C17.R2", "haplotype order: xor key, winner to super-read 0, tuple order", r2),
     ("C17.R3", "already phased calls are carried, not re-derived", r3),
+    ("C17.R4", "tags come from best agreement within the linked-read cutoff (C10.R4)", r4),
 ]
-FLOORS = {"C17.R1": 11, "C17.R2": 6, "C17.R3": 4}
+FLOORS = {"C17.R1": 11, "C17.R2": 6, "C17.R3": 4, "C17.R4": 15}
